@@ -223,6 +223,14 @@ class PathExec:
         if k == "use":
             return self.operand(st, rv["a"])
         if k in ("ref", "rawptr"):
+            pl = rv["p"]
+            if pl["p"] == ["*"]:
+                v = st.loc.get(pl["l"])
+                if v is None and 1 <= pl["l"] <= self.fn.argc:
+                    v = Aff.sym("arg%d" % pl["l"])
+                    st.loc[pl["l"]] = v
+                if v is not None and not (isinstance(v, tuple) and v[0] == "ref"):
+                    return v  # reborrow of an opaque reference value: same value
             key = self.cell_key(st, rv["p"])
             if key is None:
                 return self.opaque("ref%d" % self._next())
